@@ -486,6 +486,10 @@ func reduceS(entries []*m.S, startNr *uint32, timescale int, periodStartS, perio
 			t += d
 		}
 	}
+	if len(newS) == 0 {
+		// No segment in this period yet: the start number is the number of the next segment to come
+		return newS, &nr
+	}
 	return newS, &outStartNr
 }
 
